@@ -373,6 +373,14 @@ def install():
     def _fabs(ex, x):
         return _abs(ex, x)
 
+    @_B('math.radians')
+    def _radians(ex, x):
+        from fractions import Fraction
+        if isinstance(x, Sym):
+            return Sym(x.e * ex.ctx.PI / 180)
+        q = Fraction(repr(float(x))) / 180
+        return Sym(z3.RealVal(str(q)) * ex.ctx.PI)
+
     @_B('math.degrees')
     def _degrees(ex, x):
         if isinstance(x, Sym):
